@@ -165,9 +165,110 @@ def probe_shape(case):
             "same_bodies": seen_twin == seen, "bodies": len(seen), "cassette": list(spy.calls)}
 
 
+WATCHDOG_S = 4.0
+
+
+def probe_loghook(case):
+    """The service has a logging hook (a filter on the recorder's logger / a handler / a formatter, as used for log
+    correlation) that reads one of the recorder's public read-only properties for every record, the recorder's logger is at
+    INFO or DEBUG, and the operation uses the recorder's API (forced sampling from the operation / from an intercepted body,
+    discard, plain interceptions).  The decorated operation must behave as the undecorated one - in particular it must
+    RETURN: it runs on a worker thread under a watchdog, a run that does not end within WATCHDOG_S is reported as hung."""
+    import logging
+    from playback.tape_recorder import RecordingParameters
+    spy = Spy()
+    rec = TapeRecorder(spy)
+    rec.enable_recording()
+    action = case["action"]
+    bodies = []
+
+    def read():
+        getattr(rec, case["reads"])
+
+    class F(logging.Filter):
+        def filter(self, record):
+            read()
+            return True
+
+    class H(logging.Handler):
+        def createLock(self):
+            self.lock = None         # (a run that hangs inside this handler must not keep logging.shutdown() waiting at exit)
+
+        def emit(self, record):
+            if case["hook"] == "formatter":
+                self.format(record)
+            else:
+                read()
+
+    class Fm(logging.Formatter):
+        def format(self, record):
+            read()
+            return logging.Formatter.format(self, record)
+
+    def fetch_body(x, deco):
+        bodies.append(("fetch", x))
+        if deco and action == "force-body":
+            rec.force_sample_recording()
+        return x + 1
+
+    def send_body(*a):
+        bodies.append(("send",) + a)
+
+    def operation(fetch, send, deco):
+        v = fetch(1)
+        if deco and action in ("force-op", "force-ignored"):
+            rec.force_sample_recording()
+        if deco and action == "discard":
+            rec.discard_recording()
+        send("got", v)
+        if case.get("term") == "raise":
+            raise ValueError("failed")
+        return v + 1
+
+    fetch = rec.static_intercept_input("fetch")(lambda x: fetch_body(x, True))
+    send = rec.static_intercept_output("send")(send_body)
+
+    @rec.recording_params(RecordingParameters(sampling_rate=0.0 if action != "plain" else 1.0,
+                                              ignore_enforced_sampling=action == "force-ignored"))
+    class Op(object):
+        @rec.operation()
+        def execute(self):
+            return operation(fetch, send, True)
+
+    twin = _outcome(lambda: operation(lambda x: fetch_body(x, False), send_body, False))
+    twin_bodies = list(bodies)
+    del bodies[:]
+    lg = logging.getLogger("playback.tape_recorder")
+    old = (lg.level, lg.propagate, logging.root.manager.disable)
+    hook = F() if case["hook"] == "filter" else H()
+    if case["hook"] == "formatter":
+        hook.setFormatter(Fm("%(message)s"))
+    box = {}
+    try:
+        lg.setLevel(getattr(logging, case["level"]))
+        lg.propagate = False
+        logging.disable(logging.NOTSET)          # (the drivers run with logging switched off process-wide)
+        (lg.addFilter if case["hook"] == "filter" else lg.addHandler)(hook)
+        t = threading.Thread(target=lambda: box.update(o=_outcome(lambda: Op().execute())))
+        t.daemon = True
+        t.start()
+        t.join(WATCHDOG_S)
+        hung = t.is_alive()
+    finally:
+        (lg.removeFilter if case["hook"] == "filter" else lg.removeHandler)(hook)
+        lg.setLevel(old[0])
+        lg.propagate = old[1]
+        logging.disable(old[2])
+    b = box.get("o", ("hung", None))
+    return {"hung": hung, "twin": [twin[0], repr(twin[1])], "decorated": [b[0], repr(b[1])], "same_outcome": twin == b,
+            "same_bodies": twin_bodies == list(bodies), "cassette": [] if hung else list(spy.calls)}
+
+
 def run_probe(case):
     if case["probe"] == "lazy":
         return probe_lazy(case)
+    if case["probe"] == "loghook":
+        return probe_loghook(case)
     return probe_shape(case)
 
 
